@@ -124,7 +124,7 @@ class Result:
         s.routes = []; s.reached = {}; s.stats = {}; s.wall = 0.0; s.funcs = []; s.samples = []; s.asserts = 0; s.models_used = []
     def ok(s): return not s.bugs and not s.inconclusive
 
-OPTIONAL_PARAMS = {'xd': 0}
+OPTIONAL_PARAMS = {'xd': 0, 'peek': 0}
 def run_harness(ll, entry, params=None, setup=None, on_end=None, env_models=None, witness=None, eng_opts=None, args=(), max_bugs=8, allow_throw=None, time_limit=None, concrete=None, nsamples=3):
     """Symbolically execute harness entry `entry` of module `ll` over all paths.
     params: dict of concrete harness parameters (read by models such as verif_len)
@@ -261,8 +261,11 @@ def write_replay(path, inputs, meta=None):
     if meta is not None:
         json.dump(meta, open(path + '.json', 'w'), indent=1)
 
-def run_native(exe, entry, replay, params=None, timeout=30):
+def run_native(exe, entry, replay, params=None, timeout=30, assert_filter=None):
     env = dict(os.environ)
+    # as in the symbolic run: an assertion of a shared harness body that belongs to another property does not end the run
+    if assert_filter: env['VERIF_ASSERT_FILTER'] = assert_filter
+    else: env.pop('VERIF_ASSERT_FILTER', None)
     env['VERIF_REPLAY'] = replay
     env['VERIF_PARAMS'] = ','.join('%s=%d' % kv for kv in (params or {}).items())
     env['ASAN_OPTIONS'] = 'detect_leaks=0:abort_on_error=0:exitcode=86:allocator_may_return_null=1'
